@@ -1,5 +1,5 @@
 /- L0 facts about BollingerBands::reset (split from Lemmas/BollingerBands.lean so that a change to one method only invalidates the facts about that method) -/
-import TaRs.Lemmas.BollingerBands
+import TaRs.Lemmas.Core.BollingerBands
 import TaRs.Lemmas.Reset.StandardDeviation
 set_option linter.unusedSectionVars false
 namespace TaRs.Gen.BollingerBands
